@@ -2389,6 +2389,9 @@ class CycleDataset(Dataset):
     def __init__(self, input_dataset):
         self.input_dataset = input_dataset
 
+    def copy(self, freeze=False):
+        return self.__class__(self.input_dataset.copy(freeze=freeze))
+
     def __iter__(self, with_key=False):
         while True:
             yield from self.input_dataset.__iter__(with_key=with_key)
